@@ -5,6 +5,8 @@
 package xplore
 
 import (
+	"crypto/sha256"
+	"encoding/hex"
 	"encoding/json"
 	"fmt"
 
@@ -49,6 +51,21 @@ type req struct {
 	Name  string          `json:"name"`
 	H     []int           `json:"h"`
 	Extra json.RawMessage `json:"extra,omitempty"`
+	// Desc is a fingerprint of the coordinator's description of H: the worker recomputes it from its own copy of
+	// the (deterministically rebuilt) world and refuses to run a history that means something else there.
+	Desc string `json:"desc,omitempty"`
+}
+
+func descFingerprint(s *Spec, h []int) string {
+	if s.Describe == nil {
+		return ""
+	}
+	b, err := json.Marshal(s.Describe(h))
+	if err != nil {
+		return ""
+	}
+	sum := sha256.Sum256(b)
+	return hex.EncodeToString(sum[:8])
 }
 
 // Worker must be called at the start of main() when par.IsWorker(): it serves Run requests forever.
@@ -65,6 +82,12 @@ func Worker(specs ...*Spec) {
 		s := byName[r.Name]
 		if s == nil {
 			return Out{Viols: []Viol{{Key: "infra-unknown-spec", What: r.Name}}}
+		}
+		if r.Desc != "" && s.Describe != nil {
+			if mine := descFingerprint(s, r.H); mine != "" && mine != r.Desc {
+				b, _ := json.Marshal(s.Describe(r.H))
+				return Out{Fatal: true, Viols: []Viol{{Key: "infra-coordinator-and-worker-disagree-on-history", What: fmt.Sprintf("%s %v means %s in the worker", r.Name, r.H, b)}}}
+			}
 		}
 		return s.Run(r.H, r.Extra)
 	})
@@ -106,7 +129,7 @@ func BFS(run *ev.Run, s *Spec) Stats {
 		}
 		reqs := make([]interface{}, len(items))
 		for i, h := range items {
-			reqs[i] = req{Name: s.Name, H: h, Extra: extra}
+			reqs[i] = req{Name: s.Name, H: h, Extra: extra, Desc: descFingerprint(s, h)}
 		}
 		outs := make([]*Out, len(items))
 		pool.Do(reqs, func(r par.Result) {
@@ -199,7 +222,7 @@ func Flat(run *ev.Run, s *Spec, items [][]int) Stats {
 	}
 	reqs := make([]interface{}, len(items))
 	for i, h := range items {
-		reqs[i] = req{Name: s.Name, H: h, Extra: extra}
+		reqs[i] = req{Name: s.Name, H: h, Extra: extra, Desc: descFingerprint(s, h)}
 	}
 	seen := map[string]bool{}
 	st := Stats{Exhaustive: true}
